@@ -1,4 +1,4 @@
-#!/usr/bin/env python3
+#!/venv/bin/python
 """Regenerate the machine-derived blocks of DESIGN.md (run by hand, committed):
 
   <!-- GEN:PROPS -->     §8: one subsection per property from harness/props/cXX.py metadata + Lean file docstrings
